@@ -90,8 +90,14 @@ fn build_staged(cx: &mut Cx, lang: &'static str, recs: &[Rec], limit: usize, q: 
     let mut st = St::sentinel(lang, if cx.rng.chance(1, 2) { limit } else { cx.rng.range(1, 3) });
     let choices = [limit, limit, limit / 2, 1, 2, limit + 2, 0];
     let mut next = 0usize;
-    while next < recs.len() {
-        match cx.rng.below(6) {
+    // (the walk goes on for up to four steps after the last record has arrived: limit changes - to 0 as well - and word
+    // searches with nothing added between them and the judged search)
+    let mut epilogue = cx.rng.below(5);
+    while next < recs.len() || epilogue > 0 {
+        if next >= recs.len() {
+            epilogue -= 1;
+        }
+        match if next >= recs.len() { cx.rng.below(4) } else { cx.rng.below(6) } {
             0 => {
                 let _ = st.search("");
             }
@@ -918,6 +924,47 @@ impl Ranking {
         }
     }
 
+    /// More than 2^18 (every fourth time: 2^19) records with pairwise distinct ratings and a limit above 2^17: the list is
+    /// exactly the `limit` best-rated ids in order - before and after three further records arrive at the top.
+    fn empty_huge(&self, cx: &mut Cx, lang: &'static str) {
+        if cx.tier == Tier::Miri {
+            return;
+        }
+        let n = if cx.idx % 4 == 3 { (1usize << 19) + cx.rng.range(1, 20_000) } else { (1usize << 18) + cx.rng.range(1, 40_000) };
+        let mut ratings: Vec<usize> = (0..n).map(|i| i * 3 + 1).collect();
+        cx.rng.shuffle(&mut ratings);
+        let limit = *cx.rng.pick(&[131_073usize, 140_000, 200_000, n / 2, n / 2 + 1, n - 1, n, n + 2]);
+        let mut st = St::sentinel(lang, limit);
+        let titles = ["", "x", "ab", "-", "7"];
+        for i in 0..n {
+            st.add(&(i, titles[i % titles.len()].to_string(), ratings[i]));
+        }
+        for round in 0..2 {
+            if round == 1 {
+                for k in 0..3 {
+                    ratings.push(3 * n + 10 + k);
+                    st.add(&(n + k, "top".to_string(), 3 * n + 10 + k));
+                }
+            }
+            let total = ratings.len();
+            let q = *cx.rng.pick(&["", " ", "-"]);
+            cx.ctx(format!("C12 huge lang={} records={} limit={} q={:?} round={}", lang, total, limit, q, round));
+            let got = st.search_ids(q);
+            cx.eval();
+            cx.count("empty-query lists of stores with more than 2^18 records under a limit above 2^17");
+            let mut want: Vec<usize> = (0..total).collect();
+            want.sort_by(|a, b| ratings[*b].cmp(&ratings[*a]));
+            want.truncate(limit);
+            if got != want {
+                let at = got.iter().zip(want.iter()).position(|(a, b)| a != b).unwrap_or(got.len().min(want.len()));
+                cx.fail("empty-query-list", json!({"lang": lang, "records": format!("{} records, id i has a rating of its own (a shuffle of 1, 4, 7, ...)", total), "limit": limit, "query": q, "round": round,
+                    "errors": [format!("length {} (expected {}); first difference at position {}: got id {:?}, expected id {:?}", got.len(), want.len(), at, got.get(at), want.get(at))]}));
+                return;
+            }
+        }
+        cx.key(hparts(&[lang, &n.to_string(), &limit.to_string(), "huge"]));
+    }
+
     fn empty(&self, cx: &mut Cx, lang: &'static str) {
         let words = ["metal", "mailbox", "b", "a", "aa", "ab", "Zed", "für", "élan", "Ёж", "éclair", "e\u{301}clair", "zz", "straße", "strasse",
             "𠮷野家", "吉野家", "𐌰𐌱", "🎁x", "ﬁx", "ab𝐀", "abc𠮷", "abcd"];
@@ -1176,7 +1223,7 @@ impl Prop for Ranking {
             Which::Verdicts => vec![Stream::new("stores", 6400, 320000), Stream::new("corpus", 48, 960), Stream::new("large", 800, 16000), Stream::new("huge", 8, 48)],
             Which::Order => vec![Stream::new("stores", 3200, 160000), Stream::new("large", 400, 8000)],
             Which::Rules => vec![Stream::new("rules", 8400, 420000)],
-            Which::Empty => vec![Stream::new("stores", 32000, 1600000)],
+            Which::Empty => vec![Stream::new("stores", 32000, 1600000), Stream::new("huge", 2, 16)],
         }
     }
     fn floors(&self) -> Vec<(&'static str, u64, u64)> {
@@ -1184,7 +1231,7 @@ impl Prop for Ranking {
             Which::Verdicts => vec![("truncated (more matches than limit)", 200, 2000), ("beyond the 10x cap (soundness only)", 100, 1000), ("limit 0", 50, 500), ("selection buffer refilled (matches >= 2*limit)", 100, 1000), ("store with tied ratings (set comparison)", 50, 500), ("empty query", 50, 500), ("corpus-store searches", 100, 2000), ("corpus-store searches compared with the unlimited corpus store", 10, 200), ("large stores (limit 50-200)", 400, 8000), ("large stores whose match count is an exact multiple of the limit", 20, 400), ("stores of more than 2048 records", 8, 160), ("stores of 66-260 records", 300, 3000), ("stores built in stages with searches and limit changes in between", 3000, 30000), ("configurations whose reference stores live on threads of their own", 1500, 15000), ("stores of 33 000 - 140 000 records with one title", 8, 48), ("stores of exactly 10*limit records sharing one word", 100, 1000)],
             Which::Order => vec![("pair stores", 2000, 20000), ("permuted stores", 2000, 20000), ("searches with >= 2 hits", 300, 3000), ("truncated lists compared across permutations", 30, 300), ("stores of similar words", 500, 5000), ("pairs involving a hit ranked 7th or lower", 300, 3000), ("large stores (limit 50-200)", 200, 4000), ("stores of more than 2048 records", 4, 80), ("stores with ratings in [2^31, 2^32)", 200, 2000), ("stores with ratings spread over the whole usize range", 100, 1000), ("stores with pairs of ratings that differ in exactly one bit", 150, 1500), ("configurations whose reference stores live on threads of their own", 200, 2000), ("stores built in stages with searches and limit changes in between", 300, 3000), ("stores shadowed by a store of another language on the same thread", 500, 5000), ("stores whose past holds an over-cap search that left a gram-free fuzzy match behind", 50, 500)],
             Which::Rules => vec![("rule exact>typo", 500, 5000), ("rule both>one", 500, 5000), ("rule prefix: exact>tail", 500, 5000), ("rule adjacent>gap", 500, 5000), ("rule first>second", 500, 5000), ("rule identical titles: rating decides", 300, 3000), ("rule equal rating: shorter title first", 300, 3000), ("rule function word: content word first", 1000, 10000), ("u made of two function words run together", 300, 3000), ("rule cases with a third, unrelated record", 20000, 200000), ("identical titles with ratings 1-3 apart", 1000, 10000), ("tails of 13-70 letters", 500, 5000), ("u tagged with a part of speech that is not a function-word kind", 150, 1500), ("rule cases on stores with several copies of both titles", 5000, 50000)],
-            Which::Empty => vec![("searches after further adds", 1000, 10000), ("truncated lists with tied ratings", 500, 5000), ("stores with distinct ratings", 500, 5000), ("limit 0", 100, 1000), ("stores of 13-60 records", 1000, 10000), ("stores whose titles share a prefix of 20-40 characters", 1500, 15000), ("stores with adjacent ratings above 2^24", 1000, 10000), ("searches after a limit change", 1000, 10000), ("adds under a temporarily lowered limit", 1000, 10000), ("empty-query searches right after a search with words", 5000, 50000), ("empty-query lists read through the registry", 3000, 30000), ("registry stores whose limit was written through using_store", 2000, 20000)],
+            Which::Empty => vec![("searches after further adds", 1000, 10000), ("truncated lists with tied ratings", 500, 5000), ("stores with distinct ratings", 500, 5000), ("limit 0", 100, 1000), ("stores of 13-60 records", 1000, 10000), ("stores whose titles share a prefix of 20-40 characters", 1500, 15000), ("stores with adjacent ratings above 2^24", 1000, 10000), ("searches after a limit change", 1000, 10000), ("adds under a temporarily lowered limit", 1000, 10000), ("empty-query searches right after a search with words", 5000, 50000), ("empty-query lists read through the registry", 3000, 30000), ("registry stores whose limit was written through using_store", 2000, 20000), ("empty-query lists of stores with more than 2^18 records under a limit above 2^17", 4, 32)],
         }
     }
     fn ratios(&self) -> Vec<(&'static str, &'static str, f64, f64)> {
@@ -1203,6 +1250,7 @@ impl Prop for Ranking {
             Which::Verdicts => self.verdicts(cx, lang),
             Which::Order => self.order(cx, lang),
             Which::Rules => self.rules(cx, lang),
+            Which::Empty if stream == "huge" => self.empty_huge(cx, lang),
             Which::Empty => self.empty(cx, lang),
         }
     }
